@@ -194,6 +194,9 @@ def base_scenario(rng, index):
     sc['odd_names'] = rng.random() < 0.2
     # the existing destination has a second hard link (a snapshot backup)
     sc['dest_hardlink'] = rng.random() < 0.2
+    if route in ('lib-overwrite', 'luafmt-overwrite'):
+        # (every second of the rows that write over their input)
+        sc['dest_hardlink'] = (index // len(MATRIX) + index) % 2 == 0
     sc['dest_symlink'] = prior == 'cart' and route not in (
         'lib-overwrite', 'luafmt-overwrite') and rng.random() < 0.25
     # file arguments spelled relative to a working directory
